@@ -360,3 +360,78 @@ pub fn gen_case(seed: u64, kind: &'static str, profile: Profile, len: usize, whi
     out.push("drop".into());
     out
 }
+
+/// Interleavings of 2-4 logical threads on the concurrent cache through its phase-split API
+/// (kind=concs): each call is split into its map step (`pins`/`pinv`/`pget`), optional
+/// housekeeping (`maint`) and the enqueue of the held operation (`penq`), freely interleaved
+/// with the other threads, clock steps, `sync` and `invall`. A `snap` after every event.
+pub fn gen_concs(seed: u64, profile: Profile, len: usize) -> Vec<String> {
+    let mut rng = Rng::new(seed);
+    let cfg = gen_cfg(&mut rng, "concs", profile, "any");
+    let mut out = vec![cfg.line(seed, profile)];
+    let nthreads = 2 + rng.below(3);
+    let nkeys = 1 + rng.below(5);
+    let mut holding = vec![false; nthreads as usize];
+    // start in either housekeeping regime
+    if rng.chance(1, 2) {
+        out.push("adv 600000000".into());
+    }
+    for _ in 0..len {
+        let t = rng.below(nthreads);
+        let k = rng.below(nkeys);
+        let line = if holding[t as usize] {
+            match rng.below(10) {
+                0..=5 => {
+                    holding[t as usize] = false;       // may answer `full`: then a later penq retries
+                    format!("penq {}", t)
+                }
+                6 | 7 => "maint".to_string(),
+                8 => format!("adv {}", rng.pick(&[100_000_000u64, 500_000_000, SEC, 3 * SEC])),
+                _ => format!("pins {} {} {}", t, k, rng.below(12)),   // not enabled: bad-op
+            }
+        } else {
+            match rng.below(20) {
+                0..=7 => {
+                    holding[t as usize] = true;
+                    format!("pins {} {} {}", t, k, rng.below(12))
+                }
+                8..=11 => {
+                    holding[t as usize] = true;
+                    format!("pget {} {}", t, k)
+                }
+                12 | 13 => {
+                    // holds an op only if the key was there; `holding` is refreshed below
+                    format!("pinv {} {}", t, k)
+                }
+                14 => "maint".to_string(),
+                15 => "sync".to_string(),
+                16 => format!("adv {}", rng.pick(&[100_000_000u64, 500_000_000, SEC, 3 * SEC])),
+                17 => "invall".to_string(),
+                18 => format!("has {}", k),
+                _ => "iter".to_string(),
+            }
+        };
+        let is_pinv = line.starts_with("pinv");
+        out.push(line);
+        if is_pinv {
+            // whether the thread now holds a Remove is known only at run time: let it try to
+            // enqueue right away in half of the cases (bad-op when it holds nothing)
+            if rng.chance(1, 2) {
+                out.push(format!("penq {}", t));
+            } else {
+                holding[t as usize] = true;
+            }
+        }
+        out.push("snap".into());
+    }
+    // wind down: everybody sends what it holds, maintenance, final snapshot, drop
+    for t in 0..nthreads {
+        out.push(format!("penq {}", t));
+    }
+    if rng.chance(2, 3) {
+        out.push("sync".into());
+        out.push("snap".into());
+    }
+    out.push("drop".into());
+    out
+}
